@@ -24,6 +24,7 @@ inductive Err where
   | valueError   -- `left_c, right_c = c[:2]` on a node with one child
   | attrError    -- a child without stored sets (cannot happen in a post-order pass; kept total)
   | indexError   -- `weights[n]` with `n >= len(weights)`, evaluated only when character `n` changes at this pair
+  | assertError  -- `assert(len(c) == 2)` of `fitch_up_pass` on an internal non-root node that is not binary
 deriving DecidableEq, Repr
 
 def Err.name : Err → String
@@ -31,6 +32,7 @@ def Err.name : Err → String
   | .valueError => "ValueError"
   | .attrError => "AttributeError"
   | .indexError => "IndexError"
+  | .assertError => "AssertionError"
 
 /-- one character at one (left, right) pair: the intersection if non-empty (no change), else the union (one change) -/
 def comb (a b : SS) : SS × Nat := if a &&& b != 0 then (a &&& b, 0) else (a ||| b, 1)
